@@ -901,7 +901,7 @@ class _CopyFromZipFileExecutor:
         assert copytree is None
 
         for name in self.names:
-            fn_dst = self.job.fn(os.path.relpath(name, self.root))
+            fn_dst = self.job.fn(os.path.relpath(name, self.root or os.curdir))
             _mkdir_p(os.path.dirname(fn_dst))
             with open(fn_dst, "wb") as dst:
                 dst.write(self.zipfile.read(name))
@@ -960,7 +960,8 @@ def _analyze_zipfile_for_import(zipfile, project, schema):
 
         """
         # Must use forward slashes, not os.path.sep.
-        fn_statepoint = path + "/" + Job.FN_STATE_POINT
+        # The job may be located in the root of the archive (path == "").
+        fn_statepoint = path + "/" + Job.FN_STATE_POINT if path else Job.FN_STATE_POINT
         if fn_statepoint in names:
             return json.loads(zipfile.read(fn_statepoint).decode())
 
@@ -1053,6 +1054,8 @@ def _tarfile_path_join(path, fn):
 
     """
     path = path.rstrip("/")
+    if not path:  # the root of the archive
+        return fn
     return path + "/" + fn
 
 
